@@ -232,7 +232,29 @@ def self_first_body_overrun(case, msg, observed=None):
     return case.get("stages", 0) >= 1 and case.get("limit", 99) <= case.get("stages", 0) and "extra executions before the gate's first decision" in (msg or "")
 
 
-MATCHERS = {f.__name__: f for f in (self_first_body_overrun, equal_value_signal, mermaid_id_clash, viz_shared_producer_in_container, nested_interrupt_resume, equal_but_distinct_default, stop_iteration_async, waiter_with_edge_default, ambiguous_cycle_entry, empty_map_silent, viz_renamed_boundary, interrupt_handler_wrapped, interrupt_with_edge_default, bound_output_name)}
+def inner_bind_shared_default(case, msg, observed=None):
+    """The nested graph is REJECTED ('Inconsistent defaults') where the flat one is accepted: a parameter with a signature default
+    is bound on the inner graph and also consumed, with the same default, by a node outside it - the wrapper reports no signature
+    default for a parameter bound inside, so the consistency check sees a with / without mix."""
+    import re
+    if not isinstance(case, dict) or "nested one is rejected" not in (msg or "") or "Inconsistent defaults" not in (msg or ""):
+        return False
+    m = re.search(r"Inconsistent defaults for '([^']+)'", msg)
+    g = case.get("graph")
+    if not m or not g:
+        return False
+    p = m.group(1)
+
+    def inner_bound(gg):
+        for n in gg["nodes"]:
+            if n["kind"] == "graph":
+                if p in n["graph"].get("bound", {}) or inner_bound(n["graph"]):
+                    return True
+        return False
+    return inner_bound(g)
+
+
+MATCHERS = {f.__name__: f for f in (inner_bind_shared_default, self_first_body_overrun, equal_value_signal, mermaid_id_clash, viz_shared_producer_in_container, nested_interrupt_resume, equal_but_distinct_default, stop_iteration_async, waiter_with_edge_default, ambiguous_cycle_entry, empty_map_silent, viz_renamed_boundary, interrupt_handler_wrapped, interrupt_with_edge_default, bound_output_name)}
 
 
 def classify(ctx, case, msg, observed=None):
